@@ -30,8 +30,10 @@ def _frame_bytes(ftype, n):
     return bytes([v[0][0] >> 8, v[0][0] & 255, v[1][0]])
 
 
-def _build(order, two_types, empty_at, vr_each):
-    """order: list of frame types (0/1) of the IFLRs in file order; empty_at: index of an IFLR written with no frame data (or -1)."""
+def _build(order, two_types, empty_at, vr_each, seg=0):
+    """order: list of frame types (0/1) of the IFLRs in file order; empty_at: index of an IFLR written with no frame data (or -1);
+    seg: how the frame records of the first type are laid out - 0 one segment, 1 two segments, 2 two segments each with a trailing length,
+    3 two segments each with checksum and trailing length (both segments in one visible record)."""
     recs = [F.record(True, 0, F.file_header()), F.record(True, 1, F.origin()),
             F.record(True, 3, F.channel(CHANNELS + (CH2 if two_types else []))),
             F.record(True, 4, F.frame([(b'F0', [c[0] for c in CHANNELS])] + ([(b'F1', [c[0] for c in CH2])] if two_types else [])))]
@@ -43,7 +45,11 @@ def _build(order, two_types, empty_at, vr_each):
             recs.append(F.record(False, 0, F.iflr(b'F0' if t == 0 else b'F1', counts[t], b''), new_vr=vr_each))
             continue
         model[t].append((counts[t], len(recs)))
-        recs.append(F.record(False, 0, F.iflr(b'F0' if t == 0 else b'F1', counts[t], _frame_bytes(t, counts[t])), new_vr=vr_each))
+        payload = F.iflr(b'F0' if t == 0 else b'F1', counts[t], _frame_bytes(t, counts[t]))
+        if seg and t == 0:
+            recs.append(F.record_split(False, 0, payload, 12, trailing=seg >= 2, checksum=seg == 3, new_vr=vr_each))
+        else:
+            recs.append(F.record(False, 0, payload, new_vr=vr_each))
     data, layout = F.build(recs)
     return data, layout, model
 
@@ -95,7 +101,7 @@ def _check_population(lf, fa, ftype, frames, idxs, chosen):
 
 
 def _populate(order, two_types, empty_at, vr_each, kind, a, b, c, m1, m2, hist):
-    data, layout, model = _build(order, two_types, empty_at, vr_each)
+    data, layout, model = _build(order, two_types, empty_at, vr_each, (a + c + (1 if m2 else 0)) % 4)
     with LogicalFile.LogicalIndex(SymFile(data)) as li:
         mark.hit()
         if len(li) != 1:
